@@ -443,6 +443,24 @@ class Exec:
                 base = self.read_tree(st, tree[1]) if tree[1][0] in ('local', 'field') and (tree[1][0] != 'local' or tree[1][1] in st) else None
             except Refuse:
                 base = None
+            if isinstance(base, Opaque) and not isinstance(base, Ref) and not (isinstance(base.meta, dict)) and self.cut_loops:
+                # element of an opaque array value (e.g. a buffer filled by an uninterpreted call): named after that value
+                mci = re.match(r'^(\d+) of \d+$', tree[2])
+                iv = self.const(int(mci.group(1)), 'usize') if mci else (st[tree[2]] if re.match(r'^_\d+$', tree[2]) else self.operand(st, tree[2]))
+                m_el = re.match(r'^\[(.+); .+\]$', str(base.ty)) or re.match(r'^\[(.+)\]$', str(base.ty))
+                ety = m_el.group(1) if m_el else None
+                name = f'{base.t}[{self.idx_str(iv)}]'
+                if name in self.inputs:
+                    return self.inputs[name]
+                if ety in INT or ety == 'bool':
+                    v = self.sym(name, ety)
+                elif ety:
+                    v = Opaque(name, ety)
+                else:
+                    v = None
+                if v is not None:
+                    self.inputs[name] = v
+                    return v
             if base is not None and isinstance(base.t, tuple) and base.ty in ('array', 'tuple'):
                 mci = re.match(r'^(\d+) of \d+$', tree[2])
                 iv = self.const(int(mci.group(1)), 'usize') if mci else (st[tree[2]] if re.match(r'^_\d+$', tree[2]) else self.operand(st, tree[2]))
@@ -526,6 +544,8 @@ class Exec:
         st = {}
         for l, t in f.params:
             nm = f.debug.get(l, l)
+            if '{closure@' in t:
+                continue            # closure environment: set up by run() from the debug names of the captures
             if named and nm in named:
                 st[l] = named[nm]
             elif t in INT or t == 'bool':
@@ -592,8 +612,9 @@ class Exec:
                     dd -= 1
                 elif dd == 0:
                     flat += ch
-            segs = [x for x in flat.split('::') if re.match(r'^\w+$', x)]
-            fname_ = segs[-1] if segs else ''
+            segs = [x for x in flat.split('::') if re.match(r'^(\w+|\{closure#\d+\})$', x)]
+            k0 = max([i for i, x in enumerate(segs) if re.match(r'^\w+$', x)] or [0])
+            fname_ = '::'.join(segs[k0:]) if segs else ''
             suffix = fname_ + f'::promoted[{pm.group(2)}]'
             cands = [n for n in self.funcs if n == suffix or n.endswith('::' + suffix)]
             first = self.curf.name.split('::')[0]
